@@ -264,6 +264,19 @@ impl Rewriter {
                 return Some(("R-wild".into(), Expr::ForLoop(n)));
             }
         }
+        if self.on("R-formut") {
+            if let Pat::Ident(pi) = pat_inner(&fl.pat) {
+                if pi.mutability.is_some() && pi.by_ref.is_none() && pi.subpat.is_none() {
+                    // `for mut x in E { body }`: the binding is a fresh mutable local per element
+                    let x = pi.ident.clone();
+                    let x0 = self.fresh("m");
+                    let body: Vec<Stmt> = fl.body.stmts.clone();
+                    let src = &fl.expr;
+                    let lp: Expr = parse_quote!( for #x0 in #src { let mut #x = #x0; #(#body)* } );
+                    return Some(("R-formut".into(), lp));
+                }
+            }
+        }
         let it = strip_paren(&fl.expr);
         let Expr::MethodCall(mc) = it else { return None };
         let line = e.span().start().line;
@@ -279,6 +292,27 @@ impl Rewriter {
             }
             let lp: Expr = parse_quote!( for #idx in 0..#place.len() { #bind #(#body)* } );
             return Some(("R-iterref".into(), lp));
+        }
+        if mc.method == "enumerate" && mc.args.is_empty() && self.on("R-axisfor") {
+            // `for (i, x) in A.axis_iter(Axis(k)).enumerate()`: ndarray yields `A.index_axis(Axis(k), i)` for i in 0..A.len_of(Axis(k))
+            if let Expr::MethodCall(ax) = strip_paren(&mc.receiver) {
+                if ax.method == "axis_iter" && ax.args.len() == 1 && is_place(&ax.receiver) {
+                    let Pat::Tuple(pt) = pat_inner(&fl.pat) else { return None };
+                    if pt.elems.len() != 2 {
+                        return None;
+                    }
+                    let Pat::Ident(pi) = pat_inner(&pt.elems[0]) else { return None };
+                    if pi.by_ref.is_some() || pi.subpat.is_some() {
+                        return None;
+                    }
+                    let idx = pi.ident.clone();
+                    let xp = pat_inner(&pt.elems[1]);
+                    let base = strip_paren(&ax.receiver);
+                    let axis = &ax.args[0];
+                    let lp: Expr = parse_quote!( for #idx in 0..#base.len_of(#axis) { let #xp = #base.index_axis(#axis, #idx); #(#body)* } );
+                    return Some(("R-axisfor".into(), lp));
+                }
+            }
         }
         if mc.method == "enumerate" && mc.args.is_empty() && self.on("R-enum") {
             let (kind, base) = self.iter_source(&mc.receiver)?;
@@ -421,6 +455,60 @@ impl Rewriter {
         None
     }
 
+    // ---- R-extendmap: V.extend(SRC.map(|p| e)) / V.extend(W) -> pushes in iteration order --------------
+    fn r_extendmap(&mut self, e: &Expr) -> Option<Expr> {
+        let Expr::MethodCall(mc) = e else { return None };
+        if mc.method != "extend" || mc.args.len() != 1 || !is_place(&mc.receiver) {
+            return None;
+        }
+        let v = strip_paren(&mc.receiver).clone();
+        let line = e.span().start().line;
+        let arg = strip_paren(&mc.args[0]);
+        if let Expr::MethodCall(m2) = arg {
+            if m2.method == "map" && m2.args.len() == 1 {
+                let Expr::Closure(cl) = &m2.args[0] else { return None };
+                if cl.inputs.len() != 1 {
+                    return None;
+                }
+                let (kind, base) = self.iter_source(&m2.receiver)?;
+                let (mut stmts, tail) = closure_body_stmts(&cl.body);
+                let tail = tail?;
+                stmts.push(parse_quote!( #v.push(#tail); ));
+                let (pre, lp) = self.build_loop(kind, base, &cl.inputs[0], stmts, line);
+                return Some(parse_quote!({ #(#pre)* #lp }));
+            }
+            return None;
+        }
+        if is_place(arg) && matches!(arg, Expr::Path(_)) {
+            // `V.extend(W)` with W a Vec moved in: its elements are pushed in order
+            let x = self.fresh("x");
+            return Some(parse_quote!({ for #x in #arg { #v.push(#x); } }));
+        }
+        None
+    }
+    // ---- R-subslice: `X[a..b]` on a slice/Vec -> `vx_subslice(&X, a, b)` (panics unless a <= b <= len) ------
+    fn r_subslice(&mut self, e: &Expr) -> Option<Expr> {
+        if let Expr::Reference(r) = e {
+            // `&vx_subslice(..)` (after the inner rewrite) is the slice reference itself
+            if r.mutability.is_none() {
+                if let Expr::Call(c) = strip_paren(&r.expr) {
+                    if txt(&c.func) == "vx_subslice" {
+                        return Some(strip_paren(&r.expr).clone());
+                    }
+                }
+            }
+            return None;
+        }
+        let Expr::Index(ix) = e else { return None };
+        let Expr::Range(rg) = strip_paren(&ix.index) else { return None };
+        if !matches!(rg.limits, RangeLimits::HalfOpen(_)) {
+            return None;
+        }
+        let (Some(a), Some(b)) = (&rg.start, &rg.end) else { return None };
+        let base = &ix.expr;
+        Some(parse_quote!( vx_subslice(&#base, #a, #b) ))
+    }
+
     // ---- R-fold: X.iter().cloned().fold(init, |acc, x| e) / X.iter().fold(..) -----------
     fn r_fold(&mut self, e: &Expr) -> Option<Expr> {
         let Expr::MethodCall(mc) = e else { return None };
@@ -558,10 +646,15 @@ impl Rewriter {
     fn r_index(&mut self, e: &Expr) -> Option<Expr> {
         let Expr::Index(ix) = e else { return None };
         let id = txt(strip_paren(&ix.expr)).replace(' ', "");
-        let f = self.index_map.get(&id)?;
-        let f = Ident::new(f, proc_macro2::Span::call_site());
+        let f = self.index_map.get(&id)?.clone();
         let base = &ix.expr;
         let i = &ix.index;
+        if let Some(name) = f.strip_prefix('*') {
+            // `X[i]` is `*Index::index(&X, i)`: the stub returns the reference
+            let f = Ident::new(name, proc_macro2::Span::call_site());
+            return Some(parse_quote!( (*#f(&#base, #i)) ));
+        }
+        let f = Ident::new(&f, proc_macro2::Span::call_site());
         Some(parse_quote!( #f(&#base, #i) ))
     }
 
@@ -775,6 +868,38 @@ impl Rewriter {
     }
 
     // ---- macros: R-fmt, R-assert, R-smacro ---------------------------------------------
+    /// apply R-index to the `let` bindings a loop rewrite has put at the head of the loop body
+    fn revisit_new_bindings(&mut self, e: &mut Expr) {
+        if !self.on("R-index") {
+            return;
+        }
+        struct V<'a> { rw: &'a mut Rewriter }
+        impl<'a> VisitMut for V<'a> {
+            fn visit_expr_mut(&mut self, e: &mut Expr) {
+                visit_mut::visit_expr_mut(self, e);
+                if let Some(n) = self.rw.r_index(e) {
+                    let line = e.span().start().line;
+                    self.rw.record("R-index", line, e, &n);
+                    *e = n;
+                }
+            }
+        }
+        V { rw: self }.visit_expr_mut(e);
+    }
+    fn fmt_positional(&self, mac: &Macro) -> Option<(Expr, Vec<Expr>)> {
+        let args = mac.parse_body_with(punctuated::Punctuated::<Expr, Token![,]>::parse_terminated).ok()?;
+        let mut it = args.into_iter();
+        let lit = it.next()?;
+        let Expr::Lit(ExprLit { lit: Lit::Str(ls), .. }) = &lit else { return None };
+        let text = ls.value().replace("{{", "").replace("}}", "");
+        let rest: Vec<Expr> = it.collect();
+        // every brace group must be exactly `{}` and their number must equal the number of arguments
+        let opens = text.matches('{').count();
+        if opens != text.matches("{}").count() || opens != rest.len() || rest.is_empty() {
+            return None;
+        }
+        Some((lit, rest))
+    }
     fn r_macro_expr(&mut self, e: &Expr) -> Option<(String, Expr)> {
         let Expr::Macro(em) = e else { return None };
         self.r_macro(&em.mac)
@@ -782,6 +907,13 @@ impl Rewriter {
     fn r_macro(&mut self, mac: &Macro) -> Option<(String, Expr)> {
         let name = mac.path.segments.last()?.ident.to_string();
         match name.as_str() {
+            "format" if self.on("R-fmtargs") && self.fmt_positional(mac).is_some() => {
+                // `format!("lit {} ..", a, ..)` with positional `{}` placeholders only: a function of the literal and the
+                // Display renderings of the arguments, in order
+                let (lit, args) = self.fmt_positional(mac)?;
+                let f = Ident::new(&format!("vx_fmt{}", args.len()), proc_macro2::Span::call_site());
+                Some(("R-fmtargs".into(), parse_quote!( #f(#lit #(, &#args)*) )))
+            }
             "format" if self.on("R-fmt") => Some(("R-fmt".into(), parse_quote!( fmt_opaque() ))),
             "assert_eq" if self.on("R-assert") => {
                 let args = mac.parse_body_with(punctuated::Punctuated::<Expr, Token![,]>::parse_terminated).ok()?;
@@ -974,10 +1106,12 @@ impl VisitMut for Rewriter {
             let drop_it = match &s {
                 Stmt::Macro(sm) => is_console_macro(&sm.mac),
                 Stmt::Expr(Expr::Macro(em), _) => is_console_macro(&em.mac),
+                // a `use` inside a body only affects name resolution; in the unit the names resolve to the prelude's stubs
+                Stmt::Item(Item::Use(_)) => true,
                 _ => false,
             };
             if drop_it {
-                self.dropped.push(format!("console statement at line {}: {}", s.span().start().line, txt(&s)));
+                self.dropped.push(format!("{} at line {}: {}", if matches!(&s, Stmt::Item(_)) { "local use declaration" } else { "console statement" }, s.span().start().line, txt(&s)));
             } else {
                 kept.push(s);
             }
@@ -1044,6 +1178,17 @@ impl VisitMut for Rewriter {
     }
 
     fn visit_expr_mut(&mut self, e: &mut Expr) {
+        // `vec![a, b, ..]`: the element expressions are ordinary expressions (syn keeps macro bodies as raw tokens)
+        if let Expr::Macro(em) = e {
+            if em.mac.path.is_ident("vec") {
+                if let Ok(mut elems) = em.mac.parse_body_with(punctuated::Punctuated::<Expr, Token![,]>::parse_terminated) {
+                    for x in elems.iter_mut() {
+                        self.visit_expr_mut(x);
+                    }
+                    em.mac.tokens = elems.to_token_stream();
+                }
+            }
+        }
         // children first
         visit_mut::visit_expr_mut(self, e);
         let line = e.span().start().line;
@@ -1071,10 +1216,14 @@ impl VisitMut for Rewriter {
                 return;
             }
         }
-        if self.on("R-enum") || self.on("R-zip") || self.on("R-iterref") || self.on("R-wild") {
+        if self.on("R-enum") || self.on("R-zip") || self.on("R-iterref") || self.on("R-wild") || self.on("R-axisfor") || self.on("R-formut") {
             if let Some((rule, n)) = self.r_forloop(e) {
                 self.record(&rule, line, e, &n);
                 *e = n;
+                // element bindings introduced by the rewrite (`&X[k]`, `A.index_axis(..)`) are subject to the other rules
+                if rule == "R-enum" || rule == "R-axisfor" || rule == "R-iterref" || rule == "R-zip" {
+                    self.revisit_new_bindings(e);
+                }
                 return;
             }
         }
@@ -1107,6 +1256,61 @@ impl VisitMut for Rewriter {
         if self.on("R-sortby") {
             if let Some(n) = self.r_sortby(e) {
                 self.record("R-sortby", line, e, &n);
+                *e = n;
+                return;
+            }
+        }
+        if self.on("R-tostring") {
+            // `x.to_string()` is `ToString::to_string(&x)`: the Display rendering
+            if let Expr::MethodCall(mc) = e {
+                if mc.method == "to_string" && mc.args.is_empty() && mc.turbofish.is_none() {
+                    let r = &mc.receiver;
+                    let n: Expr = parse_quote!( vx_to_string(&#r) );
+                    self.record("R-tostring", line, e, &n);
+                    *e = n;
+                    return;
+                }
+            }
+        }
+        if self.on("R-ascast") {
+            // `E as Ty` for a type named in the unit's map (`//@const asTy:f`): an unsizing coercion such as
+            // `Arc<UInt32Array> as ArrayRef`, which Verus has no notion of; the unit names the stub carrying its contract
+            if let Expr::Cast(c) = e {
+                let key = format!("as{}", txt(&c.ty).replace(' ', ""));
+                if let Some(f) = self.const_map.get(&key) {
+                    let f = Ident::new(f, proc_macro2::Span::call_site());
+                    let inner = &c.expr;
+                    let n: Expr = parse_quote!( #f(#inner) );
+                    self.record("R-ascast", line, e, &n);
+                    *e = n;
+                    return;
+                }
+            }
+        }
+        if self.on("R-into") {
+            // `x.into()` is `Into::into(x)`; the unit's `vx_into` carries the conversion's contract
+            if let Expr::MethodCall(mc) = e {
+                if mc.method == "into" && mc.args.is_empty() && mc.turbofish.is_none() {
+                    let r = &mc.receiver;
+                    let n: Expr = parse_quote!( vx_into(#r) );
+                    self.record("R-into", line, e, &n);
+                    *e = n;
+                    return;
+                }
+            }
+        }
+        if self.on("R-extendmap") {
+            if let Some(n) = self.r_extendmap(e) {
+                self.record("R-extendmap", line, e, &n);
+                *e = n;
+                // the element binding introduced by the loop (`&X[k]`) is subject to the other rules (R-index)
+                visit_mut::visit_expr_mut(self, e);
+                return;
+            }
+        }
+        if self.on("R-subslice") {
+            if let Some(n) = self.r_subslice(e) {
+                self.record("R-subslice", line, e, &n);
                 *e = n;
                 return;
             }
@@ -1236,6 +1440,11 @@ pub fn selftest() -> i32 {
         ("{ for _ in 0..n { v.push(r.random()); } }", &["R-wild"], "for __vx_i1 in 0 .. n { v . push (r . random ()) ; }", &["R-wild"]),
         ("{ (_, m, _, u) = lf(p); }", &["R-destruct"], "{ let (_ , __vx_t1 , _ , __vx_t2) = lf (p) ; m = __vx_t1 ; u = __vx_t2 ; }", &["R-destruct"]),
         ("{ let q = (z * d).sum_dim(1).squeeze(1); let m = T::f(a).r([1, 2]).e(n); let k = x.len(); let w = (z.r(2) * d).sum(); }", &["R-unchain"], "let __vx_c1 = (z * d) . sum_dim (1) ; let q = __vx_c1 . squeeze (1) ; let __vx_c2 = T :: f (a) ; let __vx_c3 = __vx_c2 . r ([1 , 2]) ; let m = __vx_c3 . e (n) ; let k = x . len () ; let __vx_c4 = z . r (2) ; let w = (__vx_c4 * d) . sum () ;", &["R-unchain", "R-unchain", "R-unchain", "R-unchain"]),
+        ("{ h.extend((0..n).map(|i| format!(\"dim_{}\", i))); row.extend(obs.iter().map(|v| v.to_string())); arrays.extend(dim_arrays); }", &["R-extendmap", "R-fmtargs"], "{ for i in 0 .. n { h . push (vx_fmt1 (\"dim_{}\" , & i)) ; } } ; { for __vx_k1 in 0 .. obs . len () { let v = & obs [__vx_k1] ; row . push (v . to_string ()) ; } } ; { for __vx_x1 in dim_arrays { arrays . push (__vx_x1) ; } }", &["R-fmtargs", "R-extendmap", "R-extendmap", "R-extendmap"]),
+        ("{ let r = &flat[o..o + n]; for (j, v) in flat[a..b].iter().enumerate() { g(j, v); } }", &["R-subslice", "R-enum"], "let r = vx_subslice (& flat , o , o + n) ;", &["R-subslice", "R-subslice", "R-subslice", "R-enum"]),
+        ("{ for (c, ch) in data.axis_iter(Axis(0)).enumerate() { g(c, ch); } let m = format!(\"x {e:?}\"); }", &["R-axisfor", "R-fmtargs", "R-fmt"], "for c in 0 .. data . len_of (Axis (0)) { let ch = data . index_axis (Axis (0) , c) ; g (c , ch) ; } let m = fmt_opaque () ;", &["R-axisfor", "R-fmt"]),
+        ("{ let mut row = vec![c.to_string(), \"chain\".to_string()]; }", &["R-tostring"], "vec ! [vx_to_string (& c) , vx_to_string (& \"chain\")]", &["R-tostring", "R-tostring"]),
+        ("{ for mut b in bs { out.push(g(b.finish())); } let v: f64 = (*val).into(); }", &["R-formut", "R-into"], "for __vx_m1 in bs { let mut b = __vx_m1 ; out . push (g (b . finish ())) ; } let v : f64 = vx_into ((* val)) ;", &["R-formut", "R-into"]),
         ("{ if (now >= last + freq) | (i == total - 1) { f(); } }", &["R-boolor"], "if vx_bor ((now >= last + freq) , (i == total - 1)) { f () ; }", &["R-boolor"]),
         ("{ for w in rho.windows_with_stride(2, 2) { f(w); } }", &["R-windows"], "for __vx_w1 in 0 .. vx_win_count (rho . len () , 2 , 2) { let w = nd_window (& rho , __vx_w1 * 2 , 2) ; f (w) ; }", &["R-windows"]),
         ("{ out.axis_iter_mut(Axis(1)).into_par_iter().enumerate().for_each(|(c, mut oc)| { let d = g(c); oc[3] = d; }); }", &["R-par", "R-axisiter"], "for c in 0 .. out . ncols () { let d = g (c) ; nd_set2 (& mut out , 3 , c , d) ; }", &["R-par", "R-axisiter"]),
